@@ -107,8 +107,8 @@ def plan(case: Dict[str, Any]) -> Tuple[M.Model, List[int], List[List[Tuple[int,
     """Model + sentinel addresses + tagged probe list per op (pure function of the case)."""
     m = M.Model(case["cfg"])
     sent = M.sentinels(m, case.get("sent_seed", 0))
-    all_aliases = case.get("profile", "mixed") in ("alias", "mixed")
-    pl = [M.op_probes(m, op[1], op[2] // 8, all_aliases) for op in case["ops"]]
+    level = {"plain": 0, "edge": 0, "alias": 1, "mixed": 2}.get(case.get("profile", "mixed"), 2)
+    pl = [M.op_probes(m, op[1], op[2] // 8, level) for op in case["ops"]]
     return m, sent, pl
 
 
@@ -119,7 +119,12 @@ def run_rs_batch(cases: List[Dict[str, Any]]) -> List[Any]:
         reqs.append({"mode": "cpu" if case["cfg"]["model"] == "rs-cpu" else "direct",
                      "cfg": _cfg_steps_rs(case["cfg"]), "sent": sent,
                      "ops": _ops_rs(case, m, [[a for a, _ in p] for p in pl])})
-    resp = rsclient.shared().call({"cmd": "c11.run", "cases": reqs})
+    req = {"cmd": "c11.run", "cases": reqs}
+    try:
+        resp = rsclient.shared().call(req)
+    except HarnessError:
+        # the harness subprocess was killed from outside (shared machine): one retry on a fresh process
+        resp = rsclient.shared().call(req)
     if not resp.get("ok"):
         raise HarnessError(f"c11.run failed: {str(resp)[:300]}")
     return resp["results"]
